@@ -306,6 +306,25 @@ def verify_function(model, contract, timeout_ms=10000, body_override=None, extra
                 r2.detail = "discharged only outside the input classes of the known findings for this clause"
                 r = r2
         results.append(r)
+    # cover per clause: a postcondition of the form `forall ... implies(A, B)` is worth something only if A can hold on some return path.  If
+    # `hyps |- forall ... (A -> False)` is provable on every path the proof of the clause is vacuous (contradictory invariants or assumptions,
+    # or a clause that cannot apply): reported as undecided, never as held.
+    ante = {}
+    for ob, r in zip(obs, results):
+        mt = re.search(r":ensures\[(\d+)\]:path\d+$", ob.name)
+        if mt and r.status == "discharged":
+            ag = antecedent_never(ob.goal)
+            if ag is not None:
+                ante.setdefault(int(mt.group(1)), []).append(Obligation(ob.name + ":antecedent-never", ob.hyps, ag))
+    if ante:
+        flat = [o_ for lst in ante.values() for o_ in lst]
+        verdicts = dict(zip([o_.name for o_ in flat], discharge_quick(flat, axioms, 2500)))
+        for i, lst in sorted(ante.items()):
+            dead = all(verdicts[o_.name] for o_ in lst)
+            results.append(Result(f"{contract.qualname}:ensures[{i}]:cover:antecedent-can-hold", "unknown" if dead else "discharged", "z3", 0.0, "cover",
+                                  detail=("on every return path the hypotheses refute the antecedent of this clause: its proof is vacuous "
+                                          "(contradictory invariants / assumptions, or a clause that never applies)") if dead else "",
+                                  group=f"{contract.qualname}:ensures[{i}]"))
     # cover: the end of the function is reachable under the precondition (non-vacuity)
     reach = False
     for o in sorted(outs, key=lambda o: len(o.state.pc)):
@@ -323,6 +342,35 @@ def verify_function(model, contract, timeout_ms=10000, body_override=None, extra
     info = {"qualname": contract.qualname, "source": f"{rel}:{qual}", "sha256_16": h, "lines": [fdef.lineno, fdef.end_lineno], "havoced": getattr(ex, "havoced", [])[:20],
             "paths": len(outs), "return_paths": n_ret, "raise_paths": n_raise, "obligations": len(obs)}
     return results, info
+
+
+def antecedent_never(t):
+    """For a goal `forall xs. A -> (forall ys. B -> C)` the formula `forall xs. A -> (forall ys. B -> False)`; None if the goal has no antecedent."""
+    if z3.is_quantifier(t) and t.is_forall():
+        vs = [z3.Const(f"{t.var_name(i)}!an{t.get_id()}", t.var_sort(i)) for i in range(t.num_vars())]
+        body = z3.substitute_vars(t.body(), *reversed(vs))
+        inner = antecedent_never(body)
+        return None if inner is None else z3.ForAll(vs, inner)
+    if z3.is_implies(t):
+        a, b = t.arg(0), t.arg(1)
+        inner = antecedent_never(b)
+        return z3.Implies(a, inner if inner is not None else z3.BoolVal(False))
+    return None
+
+
+def discharge_quick(obs, axioms, timeout_ms):
+    """True per obligation iff proved within the (short) budget; plain z3 in the pool, no retries."""
+    tasks = []
+    for ob in obs:
+        sv = z3.Solver()
+        for f in list(axioms) + list(ob.hyps) + [z3.Not(ob.goal)]:
+            sv.add(f)
+        tasks.append((sv.to_smt2(), timeout_ms, False))
+    if len(tasks) < 3 or os.environ.get("VERIF_JOBS") == "1":
+        outs = [_solve_smt2(t_) for t_ in tasks]
+    else:
+        outs = pool().map(_solve_smt2, tasks, chunksize=1)
+    return [o[0] == "unsat" for o in outs]
 
 
 def group_of(name):
